@@ -23,7 +23,7 @@ const PropDef *find_prop(const std::string &id) {
 }
 
 static FILE *rep = nullptr;          // report channel (the process's original stdout)
-static std::string g_outdir = ".";
+std::string g_outdir = ".";
 static bool g_batch = false;
 static long g_cur_idx = -1;
 static int g_child_fd = -1;          // minimiser child: where to send the verdict
@@ -78,6 +78,7 @@ static const char *failname(int k) {
 }
 
 static void on_sched_fail(int kind, const char *detail) {
+  if (g_ctx.hang_cb) { g_ctx.hang_cb(kind, detail); _exit(13); }
   const Scn *s = g_ctx.scn;
   std::string cls = std::string("hang-") + failname(kind) + "@" + g_ctx.opname;
   if (g_ctx.hang == HANG_SKIP) {
@@ -99,9 +100,11 @@ static void on_alarm(int) {
 static void setup_io() {
   int fd = dup(1);
   rep = fdopen(fd, "w");
-  int nul = open("/dev/null", O_WRONLY);
-  dup2(nul, 1);   // wencry prints "\r\n" to std::cout even with echo off
-  close(nul);
+  if (!getenv("SIM_KEEP_STDOUT")) {
+    int nul = open("/dev/null", O_WRONLY);
+    dup2(nul, 1);   // wencry prints "\r\n" to std::cout even with echo off
+    close(nul);
+  }
   simsched::set_fail_handler(on_sched_fail);
   struct sigaction sa;
   memset(&sa, 0, sizeof sa);
